@@ -188,6 +188,8 @@ type ErrResp struct {
 	Code    int       `json:"code"`
 	Headers []Mapped  `json:"headers,omitempty"`
 	Body    *BodySpec `json:"body,omitempty"`
+	// FuncCode: the status is given inside the response DSL (Response("name", func() { Code(409) }))
+	FuncCode bool `json:"func_code,omitempty"`
 }
 
 // GRPCMap is the gRPC mapping.
